@@ -1,8 +1,79 @@
-import ErdosVerif.Driver.Util
-namespace ErdosVerif.Driver.Sim
-open Lean ErdosVerif.Driver
+import ErdosVerif.Driver.TaskGraph
+import ErdosVerif.Model.Sim
+/-!
+Suite "sim": end-to-end replay of one simulation (world + scheduler-decision tape +
+draw tape) through the simulator model; the reply is the full row stream.
 
-/-- Suite handler: one JSON case in, one JSON reply out (stub until the suite is built). -/
-def handle (_j : Json) : Json := Json.mkObj [("protocol_error", Json.str "suite-not-built")]
+case:  {"suite":"sim","flags":{…},"pools":[{"name":…,"workers":[vec…]}…],
+        "jobs":[{"name","closed_loop","remaining","index","critical","template":graph}…],
+        "graphs":[{"job","timestamp","critical","graph":graph}…],
+        "decisions":[{"runtime":…,"placements":[…]}…],"tape":[draw…],"fuel":n}
+reply: {"err":null|"<Exception>","rows":[[…]…],"ended":bool,"decisions_left":n,"tape_left":n,"final":[[states…]…]}
+-/
+namespace ErdosVerif.Driver.Sim
+open Lean ErdosVerif.Driver ErdosVerif.Model
+
+def optInt (j : Json) (k : String) : Except String (Option Int) :=
+  match fldOpt j k with
+  | none => pure none
+  | some v => some <$> v.getInt?
+
+def parseFlags (j : Json) : Except String SimFlags := do
+  return { loopTimeout := ← fldInt j "loop_timeout", schedFrequency := ← fldInt j "scheduler_frequency",
+           schedDelay := ← fldInt j "scheduler_delay", dropSkipped := ← fldBool j "drop_skipped_tasks",
+           runAtWorkerFree := ← fldBool j "scheduler_run_at_worker_free",
+           updateInterval := ← fldInt j "workload_update_interval", lookahead := ← fldInt j "lookahead",
+           preemptive := ← fldBool j "preemptive", retract := ← fldBool j "retract_schedules",
+           policy := ← TaskGraph.parsePolicy (← fldStr j "policy"),
+           releaseTaskGraphs := ← fldBool j "release_taskgraphs" }
+
+def parsePlacement (j : Json) : Except String PlacementS := do
+  let kind ← match ← fldStr j "kind" with
+    | "place" => pure PKind.place | "cancel" => pure PKind.cancel
+    | "load" => pure PKind.load | "evict" => pure PKind.evict
+    | k => throw s!"bad placement kind {k}"
+  let strat ← match fldOpt j "strat" with
+    | none => pure none
+    | some v => some <$> Ledger.parseStrat v
+  return { kind := kind, task := ⟨(← Ledger.optNat j "g").getD 0, (← Ledger.optNat j "t").getD 0⟩,
+           profile := (← Ledger.optNat j "profile").getD 0, time := ← optInt j "time",
+           pool := ← Ledger.optNat j "pool", worker := ← Ledger.optNat j "worker", strat := strat }
+
+def parseDecision (j : Json) : Except String Decision := do
+  return ⟨← mapM' parsePlacement (← fldArr j "placements"), ← fldInt j "runtime"⟩
+
+def parsePool (j : Json) : Except String (String × Pool) := do
+  let ws ← mapM' Ledger.parseVec (← fldArr j "workers")
+  return (← fldStr j "name", ⟨ws.map Worker.ofVec, []⟩)
+
+def parseJob (j : Json) : Except String JobS := do
+  return ⟨← fldStr j "name", ← fldBool j "closed_loop", ← fldInt j "remaining", ← fldNat j "index",
+          ← TaskGraph.parseGraph (← fld j "template"), ← fldInt j "critical"⟩
+
+def runCase (j : Json) : Except String Json := do
+  let flags ← parseFlags (← fld j "flags")
+  let pools ← mapM' parsePool (← fldArr j "pools")
+  let jobs ← mapM' parseJob (← fldArr j "jobs")
+  let graphs ← mapM' (fun gj => do
+    let g ← TaskGraph.parseGraph (← fld gj "graph")
+    let m : GraphMeta := ⟨← fldNat gj "job", ← fldNat gj "timestamp", ← fldInt gj "critical"⟩
+    return (g, m)) (← fldArr j "graphs")
+  let decisions ← mapM' parseDecision (← fldArr j "decisions")
+  let tape ← mapM' TaskGraph.parseDraw (← fldArr j "tape")
+  let fuel ← fldNat j "fuel"
+  let s0 : SimS := { flags := flags, jobs := jobs.toArray, allGraphs := (graphs.map (·.1)).toArray,
+                     allMeta := (graphs.map (·.2)).toArray, pools := (pools.map (·.2)).toArray,
+                     poolNames := (pools.map (·.1)).toArray, tape := tape, decisions := decisions }
+  let (err, s) := Sim.simulate s0 fuel
+  return Json.mkObj [
+    ("err", match err with | none => Json.null | some e => Json.str e.name),
+    ("rows", Json.arr (s.rows.map (fun r => Json.arr (r.map Json.str).toArray))),
+    ("ended", Json.bool s.ended),
+    ("now", jInt s.now),
+    ("decisions_left", jNat s.decisions.length),
+    ("tape_left", jNat s.tape.length),
+    ("final", Json.arr (s.graphs.map (fun g => Json.arr (g.tasks.map (fun t => Json.str t.state.name)))))]
+
+def handle (j : Json) : Json := guardE (runCase j)
 
 end ErdosVerif.Driver.Sim
